@@ -247,6 +247,151 @@ Theorem C11_sync_acquisitions_see_index_evidence :
 Proof. intros. eapply sync_acquisition_counts; eauto. Qed.
 Print Assumptions C11_sync_acquisitions_see_index_evidence.
 
+(** ================= 2b. link to C10: the surrogate's evidence store ================= *)
+
+(** The update calls of the C11 model (one with the precomputed rows, if any, then [compute i p] for
+    every consumed batch, in consumption order: [update_calls]) are fed one by one into C10's model of
+    GPyRegression.update (Num/Gp.v, [Gp.update], np.r_[old, new]), starting from "no GP yet":
+    [surrogate_after pre lg = Gp.final None (update_calls pre lg)]; [bo_surrogate] runs BO under a
+    schedule and returns that store.  X = [gp_X] = map fst, Y = [gp_Y] = map snd of the store's rows.
+    Proofs: Proofs/C11_C10_Link.v (composition only; the C10 and C11 theorems are used as they are). *)
+From Elfi Require Num.Gp.
+From Elfi Require Import Proofs.C11_C10_Link.
+
+(** one scheduler iteration = one consumed batch = one call of the surrogate's update, with exactly
+    the rows BO's own update receives *)
+Theorem C11_iterate_feeds_one_update :
+  forall (P T A : Type) acq compute (c : cfg) maxp (pre : list (P * T)) s orc tr s' orc' tr',
+    iterate P T A acq compute c maxp s orc tr = inl (s', orc', tr') ->
+    exists i p,
+      clog s' = clog s ++ [(i, p)] /\
+      es s' = Bo.update P T c (es s) (compute i p) /\
+      surrogate_after P T compute pre (clog s') = Gp.update (surrogate_after P T compute pre (clog s)) (compute i p).
+Proof. exact iterate_feeds_one_update. Qed.
+Print Assumptions C11_iterate_feeds_one_update.
+
+(** For EVERY schedule (oracles as in C11_evidence_bookkeeping): when the inference returns, the rows
+    held by the surrogate's store are BO's evidence list, which is the precomputed rows followed by
+    the results of the consumed batches 0,1,..,k-1 in that order -- nothing dropped, duplicated or
+    reordered; the same for X and Y separately; n_evidence of the store counts them. *)
+Theorem C11_surrogate_trained_on_what_was_simulated :
+  forall (P T A : Type) (acq : A -> list (P * T) -> nat -> Z -> list P * A)
+         (compute : nat -> option (list P) -> list (P * T)) (c : cfg) maxp fuel pre a orc,
+    1 <= maxp ->
+    match infer P T A acq compute c fuel maxp (sched0 P T A c pre a) orc [] with
+    | inl (s, tr) =>
+        let g := surrogate_after P T compute pre (clog s) in
+        bo_surrogate P T A acq compute c fuel maxp pre a orc = Some g /\
+        Gp.rows_of g = ev (es s) /\
+        Gp.rows_of g = pre ++ flat_map (batch_call P T compute) (clog s) /\
+        gp_X g = map fst pre ++ flat_map (fun ip => map fst (batch_call P T compute ip)) (clog s) /\
+        gp_Y g = map snd pre ++ flat_map (fun ip => map snd (batch_call P T compute ip)) (clog s) /\
+        map fst (clog s) = seq 0 (nb (es s)) /\
+        Gp.n_evidence g = length pre + length (flat_map (batch_call P T compute) (clog s))
+    | inr e => e = EOutOfFuel /\ bo_surrogate P T A acq compute c fuel maxp pre a orc = None
+    end.
+Proof. exact surrogate_trained_on_what_was_simulated. Qed.
+Print Assumptions C11_surrogate_trained_on_what_was_simulated.
+
+(** ... and when the simulator's output carries the parameter rows it was run with, X is literally
+    the list of simulated rows ([simulated_at]: the supplied rows, or the rows the batch drew itself) *)
+Theorem C11_surrogate_X_is_simulated :
+  forall (P T A : Type) acq compute (c : cfg) maxp fuel (pre : list (P * T)) (a : A) orc s tr,
+    1 <= maxp -> (forall i rows, map fst (compute i (Some rows)) = rows) ->
+    infer P T A acq compute c fuel maxp (sched0 P T A c pre a) orc [] = inl (s, tr) ->
+    gp_X (surrogate_after P T compute pre (clog s)) = map fst pre ++ flat_map (simulated_at P T compute) (clog s).
+Proof. exact surrogate_X_is_simulated. Qed.
+Print Assumptions C11_surrogate_X_is_simulated.
+
+(** C10_update_keeps_prefix read on a BO run: consuming more batches only appends their rows *)
+Theorem C11_surrogate_keeps_prefix :
+  forall (P T : Type) compute (pre : list (P * T)) lg1 lg2,
+    Gp.rows_of (surrogate_after P T compute pre (lg1 ++ lg2)) =
+    Gp.rows_of (surrogate_after P T compute pre lg1) ++ flat_map (batch_call P T compute) lg2.
+Proof. exact surrogate_after_prefix. Qed.
+Print Assumptions C11_surrogate_keeps_prefix.
+
+(** Every row of the surrogate's X lies in the user's box [box_of names dict] -- coordinate by
+    coordinate, and by parameter NAME -- for every schedule, provided (a) the acquisition answers do
+    (part 1), (b) the simulator reports the parameters it was given, (c) the precomputed rows do, and
+    (d) so do the rows the initial batches (acquisition index < 0) drew from the prior, which BO does
+    not clip.  (d) is vacuous when n_initial_evidence <= n_precomputed (next theorem). *)
+Theorem C11_surrogate_evidence_in_box :
+  forall (T A : Type) (acq : A -> list (row * T) -> nat -> Z -> list row * A)
+         (compute : nat -> option (list row) -> list (row * T)) (c : cfg) names dict bs,
+    box_of names dict = Some bs ->
+    (forall a e n t, Forall (In_box bs) (fst (acq a e n t))) ->
+    (forall a e n t, length (fst (acq a e n t)) = n) ->
+    1 <= c_bpa c ->
+    (forall i rows, map fst (compute i (Some rows)) = rows) ->
+    forall maxp fuel pre a orc s tr,
+      1 <= maxp -> Forall (In_box bs) (map fst pre) ->
+      (forall i, (acq_index c i < 0)%Z -> Forall (In_box bs) (map fst (compute i None))) ->
+      infer row T A acq compute c fuel maxp (sched0 row T A c pre a) orc [] = inl (s, tr) ->
+      let X := gp_X (surrogate_after row T compute pre (clog s)) in
+      Forall (In_box bs) X /\
+      (length names <> 1 ->
+       forall x, In x X -> forall i n, nth_error names i = Some n ->
+         exists iv xi, lookup dict n = Some iv /\ nth_error x i = Some xi /\ (fst iv <= xi /\ xi <= snd iv)%Q).
+Proof. exact surrogate_evidence_in_box. Qed.
+Print Assumptions C11_surrogate_evidence_in_box.
+
+Theorem C11_surrogate_evidence_in_box_no_prior :
+  forall (T A : Type) (acq : A -> list (row * T) -> nat -> Z -> list row * A)
+         (compute : nat -> option (list row) -> list (row * T)) (c : cfg) names dict bs,
+    box_of names dict = Some bs ->
+    (forall a e n t, Forall (In_box bs) (fst (acq a e n t))) ->
+    (forall a e n t, length (fst (acq a e n t)) = n) ->
+    1 <= c_bpa c -> 1 <= c_b c -> (c_ninit c <= c_npre c)%Z ->
+    (forall i rows, map fst (compute i (Some rows)) = rows) ->
+    forall maxp fuel pre a orc s tr,
+      1 <= maxp -> Forall (In_box bs) (map fst pre) ->
+      infer row T A acq compute c fuel maxp (sched0 row T A c pre a) orc [] = inl (s, tr) ->
+      Forall (In_box bs) (gp_X (surrogate_after row T compute pre (clog s))).
+Proof. exact surrogate_evidence_in_box_no_prior. Qed.
+Print Assumptions C11_surrogate_evidence_in_box_no_prior.
+
+(** hypothesis (a) discharged by C11_acquire_base_in_box: the acquisition method is
+    AcquisitionBase.acquire (LCBSC) on whatever the inner optimiser [opt] returns, any noise setting *)
+Theorem C11_surrogate_evidence_in_box_lcbsc :
+  forall (T A : Type) sqrtf tn bs nz (opt : A -> list (row * T) -> nat -> Z -> list row * list Q * A),
+    sqrt_nonneg sqrtf -> tn_in_range tn -> wf_box bs ->
+    (forall a e n t, let '(locs, vals, _) := opt a e n t in
+                     locs <> [] /\ length locs = length vals /\ Forall (fun l => length l = length bs) locs) ->
+    forall (compute : nat -> option (list row) -> list (row * T)) (c : cfg) names dict,
+      box_of names dict = Some bs -> 1 <= c_bpa c ->
+      (forall i rows, map fst (compute i (Some rows)) = rows) ->
+      forall maxp fuel pre a orc s tr,
+        1 <= maxp -> Forall (In_box bs) (map fst pre) ->
+        (forall i, (acq_index c i < 0)%Z -> Forall (In_box bs) (map fst (compute i None))) ->
+        infer row T A (acq_lcbsc T A sqrtf tn bs nz opt) compute c fuel maxp (sched0 row T A c pre a) orc [] = inl (s, tr) ->
+        Forall (In_box bs) (gp_X (surrogate_after row T compute pre (clog s))).
+Proof. exact surrogate_evidence_in_box_lcbsc. Qed.
+Print Assumptions C11_surrogate_evidence_in_box_lcbsc.
+
+(** Synchronous acquisition: under every schedule the surrogate ends with the store of the
+    sequential run (the same value of the C10 model, not only the same rows), whose rows are the
+    sequential run's evidence. *)
+Theorem C11_surrogate_evidence_schedule_independent :
+  forall (P T A : Type) acq compute (c : cfg) maxp fuel (pre : list (P * T)) (a : A) orc ef qf n lgf,
+    c_async c = false -> 1 <= maxp ->
+    seq_run P T A acq compute c fuel (estate0 P T c pre) (qstate0 P A a) 0 [] = Some (ef, qf, n, lgf) ->
+    bo_surrogate P T A acq compute c fuel maxp pre a orc = Some (surrogate_after P T compute pre lgf) /\
+    Gp.rows_of (surrogate_after P T compute pre lgf) = ev ef.
+Proof. exact surrogate_evidence_schedule_independent. Qed.
+Print Assumptions C11_surrogate_evidence_schedule_independent.
+
+(** ... hence any two schedules (readiness oracles, max_parallel values) give the same X and Y *)
+Theorem C11_surrogate_evidence_two_schedules :
+  forall (P T A : Type) acq compute (c : cfg) maxp1 maxp2 fuel (pre : list (P * T)) (a : A) orc1 orc2 ef qf n lgf,
+    c_async c = false -> 1 <= maxp1 -> 1 <= maxp2 ->
+    seq_run P T A acq compute c fuel (estate0 P T c pre) (qstate0 P A a) 0 [] = Some (ef, qf, n, lgf) ->
+    exists g, bo_surrogate P T A acq compute c fuel maxp1 pre a orc1 = Some g /\
+              bo_surrogate P T A acq compute c fuel maxp2 pre a orc2 = Some g /\
+              gp_X g = map fst (ev ef) /\ gp_Y g = map snd (ev ef).
+Proof. exact surrogate_evidence_two_schedules. Qed.
+Print Assumptions C11_surrogate_evidence_two_schedules.
+
 (** ================= 3. the acquisition gradient ================= *)
 
 (** About the definitions generated from LCBSC.evaluate / LCBSC.evaluate_gradient: along any
@@ -418,3 +563,19 @@ Example C11_async_depends_on_schedule :
   ex_run true [false; false; false; false; false; false] = Some [(0, 0); (0, 0); (1, 1)]
   /\ ex_run true [] = Some [(0, 0); (1, 1); (2, 2)].
 Proof. vm_compute. auto. Qed.
+
+(** the link to C10's evidence store on the toy target, one precomputed row (7, 7): the store ends
+    with the precomputed row first, then the two simulated batches; two schedules, one store
+    (synchronous); asynchronous: the store follows BO's (schedule dependent) evidence list *)
+Definition ex_cfg_pre (async : bool) : cfg :=
+  {| c_b := 1; c_bpa := 1; c_ninit := 1; c_npre := 1; c_upd := 100; c_async := async; c_nev := 3 |}.
+Example C11_surrogate_example :
+  let run := fun cfg pre maxp orc => bo_surrogate nat nat unit ex_acq ex_compute cfg 10 maxp pre tt orc in
+  run (ex_cfg_pre false) [(7, 7)] 2 [false; false; false; false] = Some (Some [(7, 7); (1, 1); (2, 2)])
+  /\ run (ex_cfg_pre false) [(7, 7)] 3 [] = Some (Some [(7, 7); (1, 1); (2, 2)])
+  /\ update_calls nat nat ex_compute [(7, 7)] [(0, Some [1]); (1, Some [2])] = [[(7, 7)]; [(1, 1)]; [(2, 2)]]
+  /\ option_map gp_X (run (ex_cfg_pre false) [(7, 7)] 2 []) = Some [7; 1; 2]
+  /\ run (ex_cfg false) [] 2 [false; false; false; false; false; false] = Some (Some [(0, 0); (1, 1); (2, 2)])
+  /\ run (ex_cfg true) [] 2 [false; false; false; false; false; false] = Some (Some [(0, 0); (0, 0); (1, 1)])
+  /\ run (ex_cfg true) [] 2 [] = Some (Some [(0, 0); (1, 1); (2, 2)]).
+Proof. vm_compute. repeat split. Qed.
